@@ -81,7 +81,7 @@ def run_case(case):
         y = unique_affinity(n)
     if family in ("SparseLinearModel", "SparseMLPModel"):
         kw["alpha"] = 0.5
-    model = M.make(family, **kw)
+    model = M.make(family, _route="used_set_params" if (not script and n in (3, 5, 33)) else "ctor", **kw)
     if decorated:
         from gemclus import add_mlcl_constraint
         pairs_ml = [(0, 1)] if n >= 2 else None
